@@ -183,6 +183,7 @@ func (c *GenCtx) fnCall(sig fnSig, args []string) string {
 }
 
 func genArgs(c *GenCtx) {
+	genArgsNest(c)
 	r := c.Rng
 	doc := `{"a":1,"s":"abc","arr":[{"a":2,"k":"x"},{"a":1,"k":"y"},{"a":2,"k":"x"}]}`
 	for _, sig := range fnSigs {
@@ -803,6 +804,7 @@ func jsonEscape(c *GenCtx, s string, policy int) string {
 var litAlphabet = []string{"'", "\"", "`", "\\", "\n", "\t", "\x00", "\x1f", "é", "😀", "\ufffd", "\uffff", "a", "b", " ", "/", "u", "n", "\\\\", "\\'", "\\`", "{", "}", "[", "]", ":", ",", "\u2028", "\x7f", "$"}
 
 func genLiterals(c *GenCtx) {
+	genLitPositions(c)
 	genLitPadded(c)
 	genLitAdjacent(c)
 	r := c.Rng
@@ -933,6 +935,47 @@ func genLitPadded(c *GenCtx) {
 					"%s | @ + `1`", "let $v = %s in $v * `2`", "sort([%s, `3`, `1`])", "pad_left(s, %s)", "[%s][?@ < `100`]", "contains(`[1,10,21]`, %s)"} {
 					c.add("lit-padded", strings.ReplaceAll(form, "%s", lit), doc)
 				}
+			}
+		}
+	}
+}
+
+// every kind of literal with a body that is special to exactly one syntax (raw control characters, a lone quote of
+// another kind, invalid UTF-8, the empty body) in every syntactic position a primary expression can take: a fast path
+// keyed on the position (an element of a multi-select, a hash value, an argument) that skips the literal's validation
+// or decoding shows here (seeded L02)
+func genLitPositions(c *GenCtx) {
+	bodies := []string{"a\tb", "a\nb", "\x01", "a\x7fb", "", "a b", "é", "a'b", "a`b", "\xff", "a\\tb", "a\\\"b", "a\\u0009b", "\r", "a\x00b", "a\x1fb", "k"}
+	positions := []string{"%s", "foo.%s", "[%s]", "[k, %s]", "[%s, k]", "{k: %s}", "{k: k, j: %s}", "foo.{k: %s}", "foo.[%s]", "foo.[k, %s]", "length(%s)", "not_null(k, %s)", "%s.a", "[%s.c]", "%s || k",
+		"[?%s]", "foo[?%s == k]", "sort_by(arr, &%s)", "(%s)", "[*].%s", "foo | %s", "!%s", "%s[0]", "let $v = %s in $v", "{k: %s}.k", "[[%s]]", "%s == %s"}
+	doc := `{"foo":{"a\tb":1,"k":2,"a b":3,"é":4,"":5},"a\tb":{"a":6,"c":7},"k":"K","arr":[{"k":2},{"k":1}],"a b":[8],"":9,"é":{"a":10}}`
+	for _, b := range bodies {
+		for _, lit := range []string{"\"" + b + "\"", "'" + b + "'", "`\"" + b + "\"`"} {
+			for _, pos := range positions {
+				c.add("lit-positions", strings.ReplaceAll(pos, "%s", lit), doc)
+			}
+		}
+	}
+}
+
+// a builtin applied directly to the result of another, for every ordered pair of the one-argument builtins and every
+// type of the innermost argument: a parse-time fusion of two calls (`length(keys(x))` → the length of `x`) must keep the
+// inner call's type check and its result type (seeded L01)
+func genArgsNest(c *GenCtx) {
+	un := []string{"abs", "avg", "ceil", "floor", "keys", "values", "items", "length", "max", "min", "reverse", "sort", "sum", "to_array", "to_number", "to_string", "type",
+		"not_null", "lower", "upper", "trim", "trim_left", "trim_right", "from_items", "merge"}
+	vals := []string{`null`, `true`, `1`, `-2.5`, `"s"`, `"12"`, `[3,1,2]`, `["b","a"]`, `{"a":1,"b":2}`, `[]`, `{}`, `[["k",1],["j",2]]`, `[{"a":1},{"b":2}]`, `""`, `[null,1]`}
+	for _, f := range un {
+		for _, g := range un {
+			for _, v := range vals {
+				c.add("args-nest", f+"("+g+"(x))", `{"x":`+v+`}`)
+			}
+		}
+	}
+	for _, f := range un {
+		for _, v := range vals {
+			for _, form := range []string{"%s(x[*])", "%s(x[])", "%s(x.*)", "%s(x[?@])", "%s(x | @)", "%s([x])", "%s({a: x})", "%s(x[0])", "%s(x.a)", "%s(&x)", "%s(@).x", "x.%s(@)", "x[*].%s(@)", "%s(%s(%s(x)))"} {
+				c.add("args-nest", strings.ReplaceAll(form, "%s", f), `{"x":`+v+`}`)
 			}
 		}
 	}
